@@ -516,7 +516,7 @@ func (c *Ctx) runVarsCases(cases []varsCase, st *varsStats) {
 				b, _ := impl.UnhexW(strings.TrimPrefix(g, "PANIC "))
 				key := string(b)
 				st.panicCount[key]++
-				ex := "$v: " + cs.typ.String() + "  vars " + cs.vals[j]
+				ex := "document `" + cs.doc + "`  vars " + cs.vals[j]
 				if old, ok := st.panics[key]; !ok || len(ex) < len(old) {
 					st.panics[key] = ex
 				}
@@ -611,7 +611,20 @@ func printCounts(title string, m map[string]int) {
 	}
 }
 
-func checkXVars(c *Ctx) {
+// runVarsCheck: doVars / doArgs select the halves; with report the direct specification
+// violations are filed as findings (spec kind) under narrow signatures.
+func runVarsCheck(c *Ctx, doVars, doArgs, report bool) {
+	varsSDL := varsSchemaSDL(varTypes())
+	if doVars {
+		checkVarsHalf(c, report)
+		c.checkStrconv()
+	}
+	if doArgs {
+		c.checkArgMaps(varsSDL, report)
+	}
+}
+
+func checkVarsHalf(c *Ctx, report bool) {
 	types := varTypes()
 	sdl := varsSchemaSDL(types)
 	schema, err := impl.LoadSchema(sdl)
@@ -687,8 +700,33 @@ func checkXVars(c *Ctx) {
 		fmt.Printf("  example [%s]: %s\n", strings.TrimSpace(k), st.specEx[k])
 	}
 	c.Ev.Evals = st.cases
-	c.checkStrconv()
-	c.checkArgMaps(sdl)
+	c.Ev.Rule = "vartypes: 12 base types x list depth <= 3 x every non-null pattern; type-directed values with injected defects"
+	if !report {
+		return
+	}
+	for _, k := range pk {
+		sig := "vars-panic:other"
+		switch {
+		case strings.Contains(k, "reflect.Value.Type on zero Value"):
+			sig = "vars-panic:null-item-meets-list-type(R14a)"
+		case strings.Contains(k, "SetMapIndex"):
+			sig = "vars-panic:typed-map-setmapindex-not-assignable"
+		}
+		c.Report("spec", sig, fmt.Sprintf("VariableValues panics (%s), %d cases, e.g. %s", k, st.panicCount[k], st.panics[k]),
+			map[string]any{"op": "vars", "schema": sdl, "example": st.panics[k], "panic": k})
+	}
+	for _, k := range ek {
+		name := strings.TrimSpace(k)
+		if i := strings.Index(name, "leniency "); i >= 0 {
+			name = name[i+9:]
+		}
+		c.Report("spec", "vars-conforms:"+name, fmt.Sprintf("a returned value does not conform to its declared type (%s): %s", strings.TrimSpace(k), st.specEx[k]),
+			map[string]any{"op": "vars", "schema": sdl, "example": st.specEx[k]})
+	}
 }
 
-func init() { Checks["X-vars"] = checkXVars }
+func init() {
+	Checks["X-vars"] = func(c *Ctx) { runVarsCheck(c, true, true, false) }
+	Checks["C14"] = func(c *Ctx) { runVarsCheck(c, true, false, true) }
+	Checks["C15"] = func(c *Ctx) { runVarsCheck(c, false, true, true) }
+}
